@@ -1240,7 +1240,8 @@ class Engine:
             cs.assume(z3.Not(V))
         if self.cur is sp and sp.decreases is not None and self.entry_dec is not None:
             d = self.sv(sp.decreases.expr, cs)
-            self.oblige(cs, z3.And(d < self.entry_dec, self.entry_dec >= 0), 'decreases', who + 'recursion measure %s decreases and is bounded below' % sp.decreases.text)
+            step_ = (d < self.entry_dec) if (z3.is_int(d) and z3.is_int(self.entry_dec)) else (self.to_real(d) <= self.to_real(self.entry_dec) - 1)
+            self.oblige(cs, z3.And(step_, self.entry_dec >= 0), 'decreases', who + 'recursion measure %s decreases and is bounded below' % sp.decreases.text)
         cs.old = dict(cs.env)
         # havoc the frame
         assigns = sp.assigns
@@ -1971,7 +1972,17 @@ class Verifier(Engine):
             if n is None:
                 raise E2Error('%s has no invariant in the contract file' % name)
             return self.unroll_loop(L, st, n)
-        if L.kind == 'DoStmt': raise E2Error('do-loop contracts are not supported')
+        if L.kind == 'DoStmt' and not getattr(L, '_first_done', False):
+            # do { body } while(c): the body runs once unconditionally; the invariant is stated at the test (after each body run)
+            out0 = []
+            for p0, status0, rv0 in self.exec_block(L.body, st):
+                if status0 in ('normal', 'continue'):
+                    L._first_done = True
+                    try: out0 += self.exec_loop(L, p0)
+                    finally: L._first_done = False
+                elif status0 == 'break': out0.append((p0, 'normal', None))
+                else: out0.append((p0, status0, rv0))
+            return out0
         saved_scope, saved_lo = st.scope, st.loop_old
         st.scope = L.scope; st.loop_old = dict(st.env)
         self.loops_seen.add(L.ordinal)
@@ -2003,7 +2014,9 @@ class Verifier(Engine):
                         self.check_clause(inv, q, 'loop%d.invariant_step' % L.ordinal)
                     if dec0 is not None:
                         d1 = self.sv(ls.decreases.expr, q)
-                        self.oblige(q, z3.And(d1 < dec0, dec0 >= 0), 'loop%d.decreases' % L.ordinal, 'variant %s decreases and is bounded below' % ls.decreases.text)
+                        # integer variants decrease; real-valued ones must decrease by at least one (well-founded only then)
+                        step_ = (d1 < dec0) if (z3.is_int(d1) and z3.is_int(dec0)) else (self.to_real(d1) <= self.to_real(dec0) - 1)
+                        self.oblige(q, z3.And(step_, dec0 >= 0), 'loop%d.decreases' % L.ordinal, 'variant %s decreases%s and is bounded below' % (ls.decreases.text, '' if z3.is_int(d1) and z3.is_int(dec0) else ' by at least one'))
             elif status == 'break':
                 p.scope = L.scope
                 for vn, term in sum_terms: p.assume(self.sv(SP.X('name', name=vn), p) == term)
